@@ -185,5 +185,84 @@ def main() -> int:
         return 2
 
 
+def supervised() -> int:
+    """Run main() in a child process under a wall-clock budget.  Python-level watchdogs (signals, threads) cannot stop
+    a call that never leaves C code while holding the GIL (a regular expression that backtracks exponentially, say):
+    the parent can.  Shortly before the budget ends the child's Python stack is dumped (faulthandler, needs no GIL);
+    if the innermost frames are inside the library the hang is the implementation's - the model proves termination -
+    and is reported as a broken correspondence; otherwise it is a tool failure (exit 2)."""
+    import faulthandler
+    import tempfile
+    tier = "thorough" if ("--tier" in sys.argv and "thorough" in sys.argv[sys.argv.index("--tier") + 1:sys.argv.index("--tier") + 2]) \
+        or os.environ.get("VERIF_TIER") == "thorough" else "quick"
+    default_budget = "120" if "--replay" in sys.argv else ("1200" if tier == "quick" else str(5 * 3600))
+    budget = int(os.environ.get("VERIF_WALL_BUDGET", default_budget))
+    pid_arg = next((a for a in sys.argv[1:] if not a.startswith("-")), "C00").upper()
+    dump = tempfile.NamedTemporaryFile("w+", prefix="verif_stack_", suffix=".txt", delete=False)
+    hb = tempfile.NamedTemporaryFile("w+", prefix="verif_case_", suffix=".json", delete=False)
+    hb.close()
+    os.environ["VERIF_HEARTBEAT"] = hb.name
+    child = os.fork()
+    if child == 0:
+        faulthandler.dump_traceback_later(max(1, budget - 5), file=dump, exit=False)
+        rc = 2
+        try:
+            rc = main()
+        finally:
+            sys.stdout.flush()
+            sys.stderr.flush()
+            os._exit(rc)
+    t0 = time.time()
+    while True:
+        done, status = os.waitpid(child, os.WNOHANG)
+        if done:
+            for tmp in (dump.name, hb.name):
+                try:
+                    os.unlink(tmp)
+                except OSError:
+                    pass
+            return os.waitstatus_to_exitcode(status) if hasattr(os, "waitstatus_to_exitcode") else (status >> 8)
+        if time.time() - t0 > budget:
+            break
+        time.sleep(0.2)
+    import signal
+    os.kill(child, signal.SIGKILL)
+    os.waitpid(child, 0)
+    stack = open(dump.name).read()
+    os.unlink(dump.name)
+    try:
+        last_case = json.load(open(hb.name))
+    except (OSError, ValueError):
+        last_case = None
+    try:
+        os.unlink(hb.name)
+    except OSError:
+        pass
+    lib_dir = os.path.join(os.path.abspath(lib.REPO), "han") + os.sep
+    frames = re.findall(r'File "([^"]+)", line (\d+) in (\w+)', stack)
+    # faulthandler prints the most recent call first
+    inner_in_lib = bool(frames) and any(os.path.abspath(f).startswith(lib_dir) for f, _, _ in frames[:6])
+    print(stack[-3000:])
+    if inner_in_lib:
+        where = next(f"{f}:{ln} in {fn}" for f, ln, fn in frames if os.path.abspath(f).startswith(lib_dir))
+        what = f"the implementation did not return within the wall-clock budget of the check ({budget} s); stopped inside {where}"
+        if isinstance(last_case, dict) and last_case.get("op"):
+            # the case that was being evaluated is known: a concrete failing input (the replay runs under the same supervision)
+            payload = {"property": pid_arg, "kind": "failing-input", "tier": tier, "case": last_case, "what": what, "stack": stack[-4000:]}
+            path = lib.write_replay(pid_arg, payload)
+            print(f"[{pid_arg}] tier={tier} the implementation did not return on {json.dumps(last_case)[:300]} (stopped inside {where})")
+            print(f"VIOLATION property={pid_arg} replay={path}")
+            return 1
+        payload = {"property": pid_arg, "kind": "no-failing-input-found", "tier": tier,
+                   "proof_obligations_that_no_longer_check": [],
+                   "correspondence_disagreements": [what], "stack": stack[-4000:]}
+        path = lib.write_replay(pid_arg, payload)
+        print(f"[{pid_arg}] tier={tier} correspondence broken: the implementation did not return (stopped inside {where})")
+        print(f"VIOLATION property={pid_arg} replay={path} no-failing-input-found")
+        return 1
+    print(f"TOOL-FAILURE property={pid_arg}: wall-clock budget of {budget} s exceeded outside the library")
+    return 2
+
+
 if __name__ == "__main__":
-    sys.exit(main())
+    sys.exit(supervised())
